@@ -10,22 +10,30 @@
 //!   @ recsc <elem> <v|c> <op> <a> <r>           Record op T           (4 forms)
 //!   @ recneg <elem> <v|c> <a>                   -Record               (2 forms)
 //!   @ recpow <elem> <vv|vc|cv|cc> <a> <b>       Record^Record, Record^T, T^Record (12 forms)
+//!   @ freal <elem> <fn> <a> <b>                 sqrt exp ln sin cos (by value / by reference), pow (4 forms), pi
+//!                                               on the primitive float itself (src/numeric.rs *_float! macros)
+//!   @ trreal <elem> <fn> <an> <ad>              the same functions on Trace<elem>
+//!   @ recreal <elem> <v|c> <fn> <a>             … and on Record<elem>
 //!
 //! <elem>: i64 (overflow checks on; small operands), wrapping_u8, Fp — compared with the model —
-//! and f64, whose forms are compared with each other only (bit patterns; answer `agree`).
+//! and f64 / f32, whose forms are compared with each other only (bit patterns; answer `agree`).
 //! The answer of a Trace line is `num=<v> der=<v>`; of a Record line `num=<v> hist=<some|none>
 //! idx=<index> [dx=<v>] [dy=<v>]` (derivatives of the result with respect to the variable operands).
 
 use crate::exact::{Fp, P};
 use crate::util::*;
 use easy_ml::differentiation::{Primitive, Record, Trace, WengertList};
-use easy_ml::numeric::extra::{Pow, Real, RealRef};
+use easy_ml::numeric::extra::{Cos, Exp, Ln, Pi, Pow, Real, RealRef, Sin, Sqrt};
 use easy_ml::numeric::{Numeric, NumericRef};
 use std::num::Wrapping;
 
 pub trait WElem: Numeric + Primitive + Clone + 'static {
     fn parse(s: &str) -> Option<Self>;
     fn show(&self) -> String;
+    /// the standard library's π for the primitive floats (the documented value of `Pi::pi`)
+    fn std_pi() -> Option<Self> {
+        None
+    }
 }
 impl WElem for i64 {
     fn parse(s: &str) -> Option<i64> { s.parse().ok() }
@@ -39,9 +47,15 @@ impl WElem for Fp {
     fn parse(s: &str) -> Option<Fp> { s.parse::<u64>().ok().map(Fp::new) }
     fn show(&self) -> String { self.0.to_string() }
 }
+impl WElem for f32 {
+    fn parse(s: &str) -> Option<f32> { s.parse::<u32>().ok().map(f32::from_bits) }
+    fn show(&self) -> String { format!("bits:{}", self.to_bits()) }
+    fn std_pi() -> Option<f32> { Some(std::f32::consts::PI) }
+}
 impl WElem for f64 {
     fn parse(s: &str) -> Option<f64> { s.parse::<u64>().ok().map(f64::from_bits) }
     fn show(&self) -> String { format!("bits:{}", self.to_bits()) }
+    fn std_pi() -> Option<f64> { Some(std::f64::consts::PI) }
 }
 
 fn merge(forms: Vec<(&'static str, String)>) -> String {
@@ -262,6 +276,97 @@ where
     if parts.iter().any(|s| s.starts_with("forms-differ")) { parts.join(" ") } else { "agree".into() }
 }
 
+
+// ---------------------------------------------------------------------------------------------
+// Real functions: by-value and by-reference forms (forms compared with each other only)
+// ---------------------------------------------------------------------------------------------
+
+macro_rules! two_forms_fn {
+    ($show:expr, $x:ident, $f:ident) => {
+        vec![("v", $show(catch(|| $x.clone().$f()))), ("r", $show(catch(|| (&$x).$f())))]
+    };
+}
+
+fn show_elem<E: WElem>(r: Result<E, PanicKind>) -> String {
+    match r {
+        Ok(v) => v.show(),
+        Err(k) => panic_str(k),
+    }
+}
+
+/// `sqrt exp ln sin cos` (2 forms), `pow` (4 forms), `pi` on the element type itself
+/// (src/numeric.rs: sqrt_float!, exp_float!, pow_float!, ln_float!, sin_float!, cos_float!, Pi)
+fn real_prim<E: WElem + Real + PartialEq>(f: &str, a: E, b: E) -> Option<String>
+where
+    for<'x> &'x E: RealRef<E>,
+{
+    Some(merge(match f {
+        "sqrt" => two_forms_fn!(show_elem, a, sqrt),
+        "exp" => two_forms_fn!(show_elem, a, exp),
+        "ln" => two_forms_fn!(show_elem, a, ln),
+        "sin" => two_forms_fn!(show_elem, a, sin),
+        "cos" => two_forms_fn!(show_elem, a, cos),
+        "pow" => four_forms_pow!(show_elem, a, b, ""),
+        // no operand forms: executed twice, must be reproducible
+        "pi" => {
+            let mut v = vec![("pi", E::pi().show()), ("again", E::pi().show())];
+            if let Some(std_pi) = E::std_pi() {
+                v.push(("std-consts-PI", std_pi.show()));
+            }
+            v
+        }
+        _ => return None,
+    }))
+}
+
+fn real_trace<E: WElem + Real>(f: &str, a: Trace<E>) -> Option<String>
+where
+    for<'x> &'x E: RealRef<E>,
+{
+    Some(merge(match f {
+        "sqrt" => two_forms_fn!(show_trace, a, sqrt),
+        "exp" => two_forms_fn!(show_trace, a, exp),
+        "ln" => two_forms_fn!(show_trace, a, ln),
+        "sin" => two_forms_fn!(show_trace, a, sin),
+        "cos" => two_forms_fn!(show_trace, a, cos),
+        "pi" => vec![("1", show_trace(catch(|| Trace::<E>::pi()))), ("2", show_trace(catch(|| Trace::<E>::pi())))],
+        _ => return None,
+    }))
+}
+
+fn real_record<E: WElem + Real>(f: &str, va: bool, a: &E) -> Option<String>
+where
+    for<'x> &'x E: RealRef<E>,
+{
+    let mut out = vec![];
+    for (name, by_ref) in [("v", false), ("r", true)] {
+        let r = catch(|| {
+            let list = WengertList::new();
+            let x: Record<E> = mk::<E>(va, a, &list);
+            let xk = x.clone();
+            let z: Record<E> = match (f, by_ref) {
+                ("sqrt", false) => x.sqrt(),
+                ("sqrt", true) => (&x).sqrt(),
+                ("exp", false) => x.exp(),
+                ("exp", true) => (&x).exp(),
+                ("ln", false) => x.ln(),
+                ("ln", true) => (&x).ln(),
+                ("sin", false) => x.sin(),
+                ("sin", true) => (&x).sin(),
+                ("cos", false) => x.cos(),
+                ("cos", true) => (&x).cos(),
+                _ => Record::<E>::pi(),
+            };
+            describe::<E>(&z, if va { Some(&xk) } else { None }, None)
+        });
+        out.push((name, match r { Ok(s) => s, Err(k) => panic_str(k) }));
+    }
+    if !["sqrt", "exp", "ln", "sin", "cos", "pi"].contains(&f) {
+        return None;
+    }
+    Some(merge(out))
+}
+
 // ---------------------------------------------------------------------------------------------
 // dispatch
 // ---------------------------------------------------------------------------------------------
@@ -303,12 +408,15 @@ where
     }
 }
 
-fn run_real<E: WElem + Real>(cmd: &str, args: &[&str]) -> Option<String>
+fn run_real<E: WElem + Real + PartialEq>(cmd: &str, args: &[&str]) -> Option<String>
 where
     for<'x> &'x E: RealRef<E>,
 {
     let p = |i: usize| args.get(i).and_then(|s| E::parse(s));
     match cmd {
+        "freal" => real_prim::<E>(args.first()?, p(1)?, p(2)?),
+        "trreal" => real_trace::<E>(args.first()?, Trace { number: p(1)?, derivative: p(2)? }),
+        "recreal" => real_record::<E>(args.get(1)?, kind(args.first()?)?, &p(2)?),
         "trpow" => Some(trace_pow::<E>(Trace { number: p(0)?, derivative: p(1)? }, Trace { number: p(2)?, derivative: p(3)? })),
         "recpow" => {
             let (va, vb) = kinds(args.first()?)?;
@@ -323,10 +431,16 @@ pub fn run(cmd: &str, toks: &[&str]) -> String {
     let r = match *elem {
         "i64" => run_at::<i64>(cmd, args),
         "wrapping_u8" => run_at::<Wrapping<u8>>(cmd, args),
-        "Fp" => run_at::<Fp>(cmd, args).or_else(|| run_real::<Fp>(cmd, args)),
+        "Fp" => run_at::<Fp>(cmd, args).or_else(|| {
+            // Real functions at Fp: form agreement only here (their formulas are C04 / C05)
+            run_real::<Fp>(cmd, args).map(|s| if s.contains("forms-differ") { s } else { "agree".into() })
+        }),
         // floats: the forms are compared with each other only
         "f64" => run_at::<f64>(cmd, args)
             .or_else(|| run_real::<f64>(cmd, args))
+            .map(|s| if s.starts_with("forms-differ") || s.contains(" forms-differ") { s } else { "agree".into() }),
+        "f32" => run_at::<f32>(cmd, args)
+            .or_else(|| run_real::<f32>(cmd, args))
             .map(|s| if s.starts_with("forms-differ") || s.contains(" forms-differ") { s } else { "agree".into() }),
         _ => None,
     };
@@ -347,6 +461,13 @@ fn val(g: &mut Gen, elem: &str, nonzero: bool) -> String {
             "Fp" => {
                 if g.rng.chance(1, 8) { g.rng.below(3).to_string() } else { (g.rng.next() % P).to_string() }
             }
+            "f32" => {
+                if g.rng.chance(1, 10) {
+                    g.rng.pick(&[0.0f32, -0.0, 1.0, -1.0, f32::INFINITY, f32::NAN, 1e-30, 1e30]).to_bits().to_string()
+                } else {
+                    (((g.rng.below(4001) as f32) - 2000.0) / 16.0).to_bits().to_string()
+                }
+            }
             _ => {
                 if g.rng.chance(1, 10) {
                     g.rng.pick(&[0.0f64, -0.0, 1.0, -1.0, f64::INFINITY, f64::NAN, 1e-300, 1e300]).to_bits().to_string()
@@ -365,7 +486,7 @@ fn val(g: &mut Gen, elem: &str, nonzero: bool) -> String {
 pub fn gen(g: &mut Gen) {
     let reps = if g.thorough { 120 } else { 12 };
     let ops = ["add", "sub", "mul", "div"];
-    for elem in ["i64", "wrapping_u8", "Fp", "f64"] {
+    for elem in ["i64", "wrapping_u8", "Fp", "f64", "f32"] {
         for op in ops {
             for i in 0..reps {
                 // mostly a != b and a non-zero divisor; now and then a zero divisor (panic / x/0)
@@ -404,7 +525,22 @@ pub fn gen(g: &mut Gen) {
                 g.count("wrap.record.neg");
             }
         }
-        if elem == "Fp" || elem == "f64" {
+        if elem == "Fp" || elem == "f64" || elem == "f32" {
+            for f in ["sqrt", "exp", "ln", "sin", "cos", "pow", "pi"] {
+                for _ in 0..reps {
+                    let (a, b) = (val(g, elem, false), val(g, elem, false));
+                    g.op(format!("@ freal {} {} {} {}", elem, f, a, b));
+                    g.count(&format!("real.prim.{}.{}", elem, f));
+                    if f != "pow" {
+                        g.op(format!("@ trreal {} {} {} {}", elem, f, a, b));
+                        g.count(&format!("real.trace.{}.{}", elem, f));
+                        for k in ["v", "c"] {
+                            g.op(format!("@ recreal {} {} {} {}", elem, k, f, a));
+                            g.count(&format!("real.record.{}.{}", elem, f));
+                        }
+                    }
+                }
+            }
             for _ in 0..reps {
                 let (an, ad, bn, bd) = (val(g, elem, false), val(g, elem, false), val(g, elem, false), val(g, elem, false));
                 g.op(format!("@ trpow {} {} {} {} {}", elem, an, ad, bn, bd));
